@@ -216,11 +216,23 @@ func (vm *VM) convertPanic(msg any) error {
 			}
 		}
 	case OpMakeChan, -OpMakeChan:
-		if err, ok := msg.(string); ok && err == "reflect.MakeChan: negative buffer size" {
-			return vm.newPanic(runtimeError("makechan: size out of range"))
+		switch err := msg.(type) {
+		case runtime.Error:
+			if s := err.Error(); s == "makechan: size out of range" {
+				return vm.newPanic(runtimeError(s))
+			}
+		case string:
+			if err == "reflect.MakeChan: negative buffer size" {
+				return vm.newPanic(runtimeError("makechan: size out of range"))
+			}
 		}
 	case OpMakeSlice:
-		if err, ok := msg.(string); ok {
+		switch err := msg.(type) {
+		case runtime.Error:
+			if s := err.Error(); s == "runtime: allocation size out of range" {
+				return vm.newPanic(runtimeError("runtime error: makeslice: len out of range"))
+			}
+		case string:
 			switch err {
 			case "reflect.MakeSlice: negative len":
 				return vm.newPanic(runtimeError("runtime error: makeslice: len out of range"))
